@@ -24,8 +24,8 @@ func TestC04(t *testing.T) {
 	runProp(t, &propSpec{
 		id: "C04",
 		profile: &Profile{
-			Name: "C04", MinSteps: 8, MaxSteps: 40, MaxClient: 4, OddSometimes: true, Fragments: []string{"perm", "chan", "alloc"},
-			Weights: map[string]int{"Allocate": 10, "Refresh": 8, "CreatePermission": 12, "ChannelBind": 12, "Send": 12, "ChannelData": 12, "PeerData": 14, "Sleep": 6, "Binding": 2, "RelayError": 1},
+			Name: "C04", MinSteps: 8, MaxSteps: 40, MaxClient: 4, OddSometimes: true, Streams: true, Fragments: []string{"perm", "chan", "alloc"},
+			Weights: map[string]int{"Allocate": 10, "Refresh": 8, "CreatePermission": 12, "ChannelBind": 12, "Send": 12, "ChannelData": 12, "PeerData": 14, "Sleep": 6, "Binding": 2, "RelayError": 1, "CloseControl": 1},
 		},
 		nontrivial: func(st *Stats, sc *Script) bool {
 			if len(sc.Cfg.Clients) < 2 || st.Labels["allocate-success"] < 2 {
@@ -42,7 +42,7 @@ func TestC05(t *testing.T) {
 	runProp(t, &propSpec{
 		id: "C05",
 		profile: &Profile{
-			Name: "C05", MinSteps: 6, MaxSteps: 30, MaxClient: 2, BigData: true, MTU: true, Fragments: []string{"chan", "perm"},
+			Name: "C05", MinSteps: 6, MaxSteps: 30, MaxClient: 2, BigData: true, MTU: true, Streams: true, Fragments: []string{"chan", "perm"},
 			Weights: map[string]int{"Allocate": 4, "Refresh": 2, "CreatePermission": 12, "ChannelBind": 12, "Send": 20, "ChannelData": 20, "PeerData": 30, "Sleep": 6},
 		},
 		nontrivial: func(st *Stats, sc *Script) bool {
@@ -166,7 +166,7 @@ func TestC19(t *testing.T) {
 	runProp(t, &propSpec{
 		id: "C19",
 		profile: &Profile{
-			Name: "C19", MinSteps: 6, MaxSteps: 36, MaxClient: 4, Odd: true, V6: true, Defects: true,
+			Name: "C19", MinSteps: 6, MaxSteps: 36, MaxClient: 4, Odd: true, V6: true, Defects: true, Streams: true,
 			Weights: map[string]int{"Allocate": 30, "Refresh": 10, "CreatePermission": 8, "ChannelBind": 8, "Send": 3, "ChannelData": 2, "PeerData": 8, "Sleep": 8, "Binding": 10},
 		},
 		nontrivial: func(st *Stats, sc *Script) bool {
@@ -179,8 +179,8 @@ func TestC15(t *testing.T) {
 	runProp(t, &propSpec{
 		id: "C15",
 		profile: &Profile{
-			Name: "C15", MinSteps: 6, MaxSteps: 36, MaxClient: 3, Odd: true, Teardown: true, SlowCB: true, Coincide: true,
-			Weights: map[string]int{"Allocate": 12, "Refresh": 10, "CreatePermission": 14, "ChannelBind": 14, "Send": 3, "ChannelData": 2, "PeerData": 4, "Sleep": 22, "RelayError": 5, "CloseServer": 3},
+			Name: "C15", MinSteps: 6, MaxSteps: 36, MaxClient: 3, Odd: true, Teardown: true, SlowCB: true, Coincide: true, Streams: true,
+			Weights: map[string]int{"Allocate": 12, "Refresh": 10, "CreatePermission": 14, "ChannelBind": 14, "Send": 3, "ChannelData": 2, "PeerData": 4, "Sleep": 22, "RelayError": 5, "CloseServer": 3, "CloseControl": 4},
 		},
 		nontrivial: func(st *Stats, _ *Script) bool {
 			td := has(st, "teardown:expiry") || has(st, "refresh-zero") || has(st, "teardown:relay-error") || has(st, "teardown:server-close-with-allocations")
